@@ -135,3 +135,50 @@ impl C05Chain {
     }
 }
 
+// ---- C08-R12: narrowing a value of the numeric path to single precision --------------------------------
+pub fn c08_narrow(x: f64) -> f32 {
+    x as f32
+}
+
+// ---- C13-R9: divisions that panic on a zero divisor -------------------------------------------------------
+pub fn c13_int_div(total: u64, n: u64) -> u64 {
+    total / n
+}
+
+pub fn c13_duration_div(d: std::time::Duration, n: u32) -> std::time::Duration {
+    d / n
+}
+
+pub fn c13_int_div_guarded(total: u64, n: u64) -> u64 {
+    if n > 0 { total / n } else { 0 }
+}
+
+// ---- C13-R10: errors collected into an accumulator that nobody reads --------------------------------------
+pub fn c13_collected_error_dropped(items: Vec<Result<u32, std::io::Error>>) -> Result<(Option<std::io::Error>, u32), String> {
+    let mut first_error = None;
+    let mut sum = 0;
+    for it in items {
+        match it {
+            Err(e) => {
+                first_error.get_or_insert(e);
+            }
+            Ok(v) => sum += v,
+        }
+    }
+    Ok((None, sum))
+}
+
+pub fn c13_collected_error_returned(items: Vec<Result<u32, std::io::Error>>) -> Result<(Option<std::io::Error>, u32), String> {
+    let mut first_error = None;
+    let mut sum = 0;
+    for it in items {
+        match it {
+            Err(e) => {
+                first_error.get_or_insert(e);
+            }
+            Ok(v) => sum += v,
+        }
+    }
+    Ok((first_error, sum))
+}
+
